@@ -154,6 +154,7 @@ type Exec struct {
 	harnessPkg *ssa.Package
 	inconclusive []string
 	assertsTotal int
+	ufApps map[string][]ufApp
 	intOrigin map[*Term]*Term
 	bigs map[*Value]*Term
 	lastRun *Thread
